@@ -162,7 +162,7 @@ def case(spec):
 
 def main(tier, seed, scale=1.0):
     BIN['san'] = build.ensure('san')
-    n = int((300 if tier == 'quick' else 3000) * scale)
+    n = int((300 if tier == 'quick' else 10000) * scale)
     specs = [(seed, i, tier) for i in range(n)]
     rule = ('one case = one generated well-formed disc (Acorn/Watford/Opus x ssd/sdd/dsd/ddd x layouts); every '
             'chosen file is read with type --binary plus one of type/list/dump under a random equivalent '
